@@ -72,6 +72,41 @@ def run_one(mid, checks, scale, tests=True):
     return 0
 
 
+def replay_all():
+    """For every seeded change with recorded replay files: apply it, replay each file in a fresh
+    process, record whether the violation reproduces; restore /repo."""
+    summary = {}
+    for mid in sorted(os.listdir(SEEDED)):
+        d = os.path.join(SEEDED, mid)
+        files = sorted(f for f in os.listdir(d) if f.startswith("replay-") and f.endswith(".json"))
+        if not files or not os.path.exists(os.path.join(d, "patch.diff")):
+            continue
+        if not repo_clean():
+            print("refusing: /repo has uncommitted changes")
+            return 2
+        res = {}
+        try:
+            a = sh(f"git -C /repo apply {os.path.join(d, 'patch.diff')}")
+            if a.returncode != 0:
+                continue
+            for f in files:
+                prop = f[len("replay-"):-len(".json")]
+                r = sh([os.path.join(ROOT, "check"), prop, "--replay", os.path.join(d, f)], cwd=ROOT)
+                res[prop] = ("VIOLATION" in r.stdout, r.returncode)
+                print(f"{mid}: replay {prop}: {'reproduced' if res[prop][0] else 'NOT reproduced'} rc={r.returncode}", flush=True)
+        finally:
+            sh("git -C /repo checkout -- .")
+        summary[mid] = res
+        rp = os.path.join(d, "result.json")
+        if os.path.exists(rp):
+            j = json.load(open(rp))
+            j["replays_reproduced"] = {k: v[0] for k, v in res.items()}
+            json.dump(j, open(rp, "w"), indent=1)
+    bad = [(m, p) for m, r in summary.items() for p, v in r.items() if not v[0]]
+    print(f"replay-all: {sum(len(r) for r in summary.values())} replay files, {len(bad)} not reproduced: {bad}")
+    return 0
+
+
 def report():
     rows = []
     for mid in sorted(os.listdir(SEEDED)):
@@ -114,6 +149,8 @@ def main():
     if a[0] == "report":
         report()
         return 0
+    if a[0] == "replay-all":
+        return replay_all()
     if a[0] == "all":
         ids = sorted(x for x in os.listdir(SEEDED) if os.path.exists(os.path.join(SEEDED, x, "patch.diff")) and not os.path.exists(os.path.join(SEEDED, x, "result.json")))
     for mid in ids:
